@@ -118,11 +118,44 @@ fn run_tree_paths<Tr: TreeApi>(rep: &mut Rep, spec: &SeqSpec, budget: usize) {
         if let Some(t2) = guarded_build::<Tr>(rep, &v, path) {
             chk!(rep, "different sequence != ", (what, n), Exp::Is(false), &t2 == t);
             chk!(rep, "different sequence != (reversed)", (what, n), Exp::Is(false), t == &t2);
+            // Clone::clone_from onto a value that held something else (shorter, longer, deeper, shallower)
+            clone_from_probe::<Tr>(rep, t2, t, &m, &rng, &o, built[0].2, what);
         }
+    }
+    // ... and onto an empty value
+    if let Some(e) = guarded_build::<Tr>(rep, &[], 1) {
+        clone_from_probe::<Tr>(rep, e, t, &m, &rng, &o, built[0].2, "empty destination");
+    }
+    // ... and the other way round: the empty value cloned into a copy of the tree
+    if let (Some(e), true) = (guarded_build::<Tr>(rep, &[], 1), n > 0) {
+        let me = SeqModel::new(Vec::new());
+        let mut r = rng.clone();
+        let de = tree_battery(rep, &e as &dyn DynTree<Tr::Item>, &me, &mut r, &o);
+        clone_from_probe::<Tr>(rep, t.clone(), &e, &me, &rng, &o, de, "empty source");
     }
     if n >= 2 {
         rep.nontrivial();
     }
+}
+
+#[allow(clippy::too_many_arguments)]
+fn clone_from_probe<Tr: TreeApi>(rep: &mut Rep, dst: Tr, src: &Tr, m: &SeqModel, rng: &Rng, o: &BatOpts, want: Digest, what: &'static str) {
+    let n = m.len();
+    let slot = std::cell::RefCell::new(Some(dst));
+    let got = chk!(rep, "clone_from", (what, n), Exp::AnyVal, {
+        let mut d = slot.borrow_mut().take().unwrap();
+        d.clone_from(src);
+        *slot.borrow_mut() = Some(d);
+    });
+    if got.is_panic() {
+        return;
+    }
+    let Some(dst) = slot.into_inner() else { return };
+    chk!(rep, "clone_from == source", (what, n), Exp::Is(true), &dst == src);
+    chk!(rep, "source == clone_from", (what, n), Exp::Is(true), src == &dst);
+    let mut r = rng.clone();
+    let d = tree_battery(rep, &dst as &dyn DynTree<Tr::Item>, m, &mut r, o);
+    chk!(rep, "clone_from answers identically (digest)", (what, n), Exp::Is(want), d);
 }
 
 /// the same numbers carried in wider / narrower element types give the same answers
@@ -211,6 +244,14 @@ fn run_quad_paths<Q: QuadApi>(rep: &mut Rep, spec: &QuadSpec, budget: usize) {
     for (what, v) in neigh {
         let q2 = build_quad::<Q>(&v, rr.below(4) as u8);
         chk!(rep, "different sequence != ", (Q::NAME, what, n), Exp::Is(false), q2 == built[0]);
+        // clone_from onto a value that held a different sequence
+        let mut d = q2;
+        if !chk!(rep, "clone_from", (Q::NAME, what, n), Exp::AnyVal, d.clone_from(&built[0])).is_panic() {
+            chk!(rep, "clone_from == source", (Q::NAME, what, n), Exp::Is(true), d == built[0]);
+            let mut r = rng.clone();
+            let dd = quad_battery(rep, &d, &m, &mut r, &o);
+            chk!(rep, "clone_from answers identically (digest)", (Q::NAME, what, n), Exp::Is(ds[0]), dd);
+        }
         // the plain quad vector too
         let qv2: QVector = v.iter().copied().collect();
         chk!(rep, "different sequence != ", ("QVector", what, n), Exp::Is(false), qv2 == qv0);
@@ -261,6 +302,13 @@ fn run_bit_paths(rep: &mut Rep, spec: &BitSpec, budget: usize) {
             for (what, v) in neighbours(&bits, spec.seed) {
                 let x = <$t>::new(v.iter().copied().collect());
                 chk!(rep, "different sequence != ", ($name, what, n), Exp::Is(false), x == a);
+                let mut d = x;
+                if !chk!(rep, "clone_from", ($name, what, n), Exp::AnyVal, d.clone_from(&a)).is_panic() {
+                    chk!(rep, "clone_from == source", ($name, what, n), Exp::Is(true), d == a);
+                    let mut r3 = rng.clone();
+                    let d3 = bin_battery(rep, &d, &m, &mut r3, &o);
+                    chk!(rep, "clone_from answers identically (digest)", ($name, what, n), Exp::Is(d1), d3);
+                }
             }
         }};
     }
@@ -287,6 +335,13 @@ fn run_bit_paths(rep: &mut Rep, spec: &BitSpec, budget: usize) {
             for (what, v) in neighbours(&bits, spec.seed) {
                 let x = DArray::<$s0>::new(v.iter().copied().collect());
                 chk!(rep, "different sequence != ", ($name, what, n), Exp::Is(false), x == a);
+                let mut d = x;
+                if !chk!(rep, "clone_from", ($name, what, n), Exp::AnyVal, d.clone_from(&a)).is_panic() {
+                    chk!(rep, "clone_from == source", ($name, what, n), Exp::Is(true), d == a);
+                    let mut r3 = rng.clone();
+                    let d3 = darray_battery(rep, &d, &m, &mut r3, &o);
+                    chk!(rep, "clone_from answers identically (digest)", ($name, what, n), Exp::Is(d1), d3);
+                }
             }
         }};
     }
@@ -295,6 +350,16 @@ fn run_bit_paths(rep: &mut Rep, spec: &BitSpec, budget: usize) {
     for (what, v) in neighbours(&bits, spec.seed) {
         let x: BitVector = v.iter().copied().collect();
         chk!(rep, "different sequence != ", ("BitVector", what, n), Exp::Is(false), x == bv);
+        let mut d = x;
+        if !chk!(rep, "clone_from", ("BitVector", what, n), Exp::AnyVal, d.clone_from(&bv)).is_panic() {
+            chk!(rep, "clone_from == source", ("BitVector", what, n), Exp::Is(true), d == bv);
+        }
+        let mut dm: BitVectorMut = v.iter().copied().collect();
+        let src: BitVectorMut = bits.iter().copied().collect();
+        if !chk!(rep, "clone_from", ("BitVectorMut", what, n), Exp::AnyVal, dm.clone_from(&src)).is_panic() {
+            chk!(rep, "clone_from == source", ("BitVectorMut", what, n), Exp::Is(true), dm == src);
+            chk!(rep, "clone_from, frozen == BitVector", ("BitVectorMut", what, n), Exp::Is(true), BitVector::from(dm) == bv);
+        }
     }
     if n >= 2 {
         rep.nontrivial();
